@@ -132,7 +132,11 @@ def andes_mod():
 
 
 def sys_kwargs(**kw):
-    out = dict(default_config=True, pycode_path=pycode_path(), no_output=True)
+    # autogen_stale=False: the cache is regenerated from scratch whenever any source file changes (repo_hash), so
+    # the library's own incremental regeneration is not needed - and on this tree 7 models are reported stale on
+    # *every* System creation (md5 written by the multiprocess generator differs from Model.get_md5(); see C02),
+    # which would re-run code generation with 16 processes for every single scenario.
+    out = dict(default_config=True, pycode_path=pycode_path(), no_output=True, autogen_stale=False)
     out.update(kw)
     return out
 
